@@ -1295,3 +1295,56 @@ M("N4-helper-write-before-enqueue", ["C02", "C13"], [_R1, (OPS, '''        self.
             .data
             .outbound
             .retain_packet(packet_id, offset, len)?;''')], ["C13/atomic/subscribe"])
+
+# ---------------------------------------------------------------------------------------------- C10 due/shape: spellings and breaks
+_SQ_OLD = '''        self.session.runtime.ping_timeout.is_none()
+            && self
+                .session
+                .runtime
+                .next_ping
+                .is_some_and(|deadline| now >= deadline)
+            && !self.session.data.outbound.has_pending_pingreq()'''
+RF("RF-due-as-match", ["C10", "C11", "C13"], [(DRIVE, _SQ_OLD, '''        let runtime = &self.session.runtime;
+        if runtime.ping_timeout.is_some() {
+            return false;
+        }
+        match runtime.next_ping {
+            Some(due_at) if now >= due_at => !self.session.data.outbound.has_pending_pingreq(),
+            _ => false,
+        }''')])
+RF("RF-due-as-if-let", ["C10", "C11", "C13"], [(DRIVE, _SQ_OLD, '''        if let (None, Some(next)) = (self.session.runtime.ping_timeout, self.session.runtime.next_ping) {
+            next <= now && !self.session.data.outbound.has_pending_pingreq()
+        } else {
+            false
+        }''')])
+RF("RF-due-map-or", ["C10", "C11", "C13"], [(DRIVE, _SQ_OLD, '''        let response_outstanding = self.session.runtime.ping_timeout.is_some();
+        let deadline_reached = self.session.runtime.next_ping.map_or(false, |at| now >= at);
+        !response_outstanding && deadline_reached && !self.session.data.outbound.has_pending_pingreq()''')])
+M("C10-due-ignores-outstanding-response", "C10", [(DRIVE, _SQ_OLD, '''        self
+                .session
+                .runtime
+                .next_ping
+                .is_some_and(|deadline| now >= deadline)
+            && !self.session.data.outbound.has_pending_pingreq()''')], ["C10/due/shape"])
+M("C10-due-without-deadline-test", "C10", [(DRIVE, _SQ_OLD, '''        self.session.runtime.ping_timeout.is_none()
+            && self.session.runtime.next_ping.is_some()
+            && !self.session.data.outbound.has_pending_pingreq()''')], ["C10/due/shape"])
+M("C10-due-match-inverted-cmp", "C10", [(DRIVE, _SQ_OLD, '''        let runtime = &self.session.runtime;
+        if runtime.ping_timeout.is_some() {
+            return false;
+        }
+        match runtime.next_ping {
+            Some(due_at) if now <= due_at => !self.session.data.outbound.has_pending_pingreq(),
+            _ => false,
+        }''')], ["C10/due/shape"])
+M("C10-due-requeues-pending", "C10", [(DRIVE, _SQ_OLD, '''        self.session.runtime.ping_timeout.is_none()
+            && self
+                .session
+                .runtime
+                .next_ping
+                .is_some_and(|deadline| now >= deadline)''')], ["C10/due/shape"])
+
+# second round: atomic behaviour-preserving refactorings, six per area, each applying to the pristine tree on its own
+import glob as _glob, os as _os
+for _p in sorted(_glob.glob(_os.path.join(_os.path.dirname(_os.path.abspath(__file__)), "refactors", "rf2", "*.diff"))):
+    RF("RF2-" + _os.path.basename(_p)[:-5], ALL19, [("@patch", "selftest/refactors/rf2/" + _os.path.basename(_p), "")])
